@@ -125,7 +125,13 @@ func (d *c06dbi) Reload(path string) (db.DBI, error) {
 // ---- op sequences --------------------------------------------------------------------------------
 
 var c06ops = []string{"acq", "use0", "use1", "rel0", "rel1", "newok", "sameok", "openerr", "valfailnew", "valfailsame",
-	"todone", "topnew", "topsame", "topfail", "late", "down"}
+	"todone", "topnew", "topsame", "topfail", "late", "down", "newokM", "sameokM", "valfailnewM"}
+
+// The `…M` reloads attempt an AcquireReader from another goroutine while FBDNSDB.Reload is between
+// db.Reload's return and the swap of the served pointer (yield point "reload.returned"). Reload
+// holds reloadMu for its whole duration, so the acquisition must wait until the reload is over: the
+// model treats `newokM` as `newok; acq`. An acquisition that gets through earlier holds a database
+// the reload has already released.
 
 func c06gen(g *gen, tier string, w *bufio.Writer) {
 	depth := 3
@@ -204,7 +210,8 @@ func c06run(line string) (string, string) {
 	var pending []*c06script
 	down := false
 	gen := 0
-	reload := func(kind string, valOk bool, timeout time.Duration, block bool) *c06script {
+	reload := func(kind string, valOk bool, timeout time.Duration, block bool, midOpt ...bool) *c06script {
+		mid := len(midOpt) > 0 && midOpt[0]
 		sc := &c06script{kind: kind, done: make(chan struct{}), started: make(chan struct{})}
 		if block {
 			sc.block = make(chan struct{})
@@ -219,7 +226,41 @@ func c06run(line string) (string, string) {
 			gen++
 			sig = *dnsserver.NewFullReloadSignal(fmt.Sprintf("p%d", gen))
 		}
+		var midCh chan db.Reader
+		if mid {
+			midCh = make(chan db.Reader, 1)
+			fired := false
+			dnsserver.VerifYield = func(point string) {
+				if point != "reload.returned" || fired {
+					return
+				}
+				fired = true
+				got := make(chan struct{})
+				go func() {
+					r, err := h.AcquireReader()
+					close(got)
+					if err != nil {
+						r = nil
+					}
+					midCh <- r
+				}()
+				select {
+				case <-got: // the acquisition did not wait for the reload
+				case <-time.After(3 * time.Millisecond):
+				}
+			}
+		}
 		_ = h.Reload(sig)
+		if mid {
+			dnsserver.VerifYield = nil
+			select {
+			case r := <-midCh:
+				if r != nil {
+					readers = append(readers, r)
+				}
+			case <-time.After(5 * time.Second):
+			}
+		}
 		<-sc.started
 		if !block {
 			<-sc.done
@@ -279,6 +320,12 @@ func c06run(line string) (string, string) {
 			}
 		case op == "newok":
 			reload("new", true, 10*time.Second, false)
+		case op == "newokM":
+			reload("new", true, 10*time.Second, false, true)
+		case op == "sameokM":
+			reload("same", true, 10*time.Second, false, true)
+		case op == "valfailnewM":
+			reload("new", false, 10*time.Second, false, true)
 		case op == "sameok":
 			reload("same", true, 10*time.Second, false)
 		case op == "openerr":
@@ -291,7 +338,10 @@ func c06run(line string) (string, string) {
 			world.mu.Lock()
 			nb := len(world.backends)
 			world.mu.Unlock()
-			sc := reload("new", true, time.Nanosecond, false)
+			// the fake's Reload is held until FBDNSDB.Reload has returned its timeout error, then let
+			// go at once (a 1 ns timeout racing an immediate completion is decided by the scheduler)
+			sc := reload("new", true, 200*time.Microsecond, true)
+			close(sc.block)
 			waitSettled(sc, nb)
 		case op == "topnew", op == "topsame", op == "topfail":
 			sc := reload(op[3:], true, 200*time.Microsecond, true)
